@@ -2,9 +2,10 @@
 import hh_common
 import log_common as _L
 
-# the two runner theorems mention HH.step, whose case-file literals are primitive 63-bit integers: Print Assumptions
-# lists those kernel primitives (no logical axiom) under 'Axioms:'
-ALLOWED_AXIOMS = frozenset(a for a in _L.PRIMITIVES if a.startswith("PrimInt63."))
+# the runner theorems mention HH.step / check_case, whose case-file literals are primitive 63-bit integers and whose
+# default threshold is the bit-exact binary64 product: Print Assumptions lists those kernel primitives (no logical
+# axiom) under 'Axioms:'
+ALLOWED_AXIOMS = frozenset(_L.PRIMITIVES)
 MANIFEST = dict(
     category="proof",
     text="Coq theorems over a branch-for-branch Gallina model of heavyhitters.py (_add, add, _add_ngram, _merge, _max_count, "
@@ -16,15 +17,17 @@ MANIFEST = dict(
          "unrepaired bytes-only matching rule violates the property: F1); C03_runner_registers_are_model_states / "
          "C03_runner_observes_model_state (for every program, every register of the correspondence runner is, inside the array "
          "bounds, eval of some history, and table code, hh[k] and query answers are those of that eval — so the correspondence "
-         "run speaks of the object the theorems are about). Model tied to the code by running random and "
+         "run speaks of the object the theorems are about); C03_runner_bucket_below_width (the case check the harness evaluates, "
+         "check_case_strict, decides bucket < width for the observed bucket map). Model tied to the code by running random and "
          "enumerated programs on the real HeavyHitters and evaluating the model inside Coq on the same programs, comparing the "
          "complete state after every operation.",
     design_ref="DESIGN.md section 6, C03",
     note="Trusted: Coq kernel + vm_compute; the hand transcription HH.v (validated by the correspondence run, bucket map observed "
          "on a probe sketch, never computed); translator for hh_cap; Numba's uint32/uint8 store semantics. n_added_records are "
          "modelled as unbounded integers (2^64 wrap out of scope); keys shorter than 2^64 bytes. Theorems closed under the "
-         "global context (no axioms); the two runner theorems mention the runner's primitive 63-bit integer literals, so "
-         "Print Assumptions lists the PrimInt63 kernel primitives for them (no logical axiom).",
+         "global context (no axioms); the runner theorems (C03_runner_registers_are_model_states, C03_runner_bucket_below_width) "
+         "mention the runner's primitive 63-bit integer literals and its binary64 default threshold, so Print Assumptions lists "
+         "the PrimInt63/PrimFloat kernel primitives for them (no logical axiom).",
     technique="Coq proof (cell invariant by induction over histories) + vm_compute correspondence against the Numba code")
 
 
